@@ -626,6 +626,62 @@ def run(report, p):
             aware += [n for q in p.reachable([mf.qual]) if p.funcs[q].module.name.endswith(("history", "hashlist")) for n in ast.walk(p.funcs[q].node) if isinstance(n, ast.Attribute) and n.attr == "previous_path" and isinstance(n.ctx, ast.Load) and p.funcs[q].name not in ("append_hash", "log", "log_hash_entry")]
             r10.check(bool(aware), mf, lp, f"{mname} answers with the first record indexed under the name in any generation and never looks at the record's own path or previous path: after a.txt was renamed to b.txt (create -dr) and, one generation later, x.txt was renamed to a.txt, the new a.txt is judged against generation 1's record of the OLD a.txt - create -dr reports a hash mismatch (exit 11) on an unchanged file", construct="first hit by name ignores that the name changed hands")
 
+    # ------------------------------------------------------------------ R17.13
+    r13 = report.rule(
+        "R17.13",
+        "recorded paths are made absolute with the root of the HISTORY that is asked (the root the command was given), never with a root derived from the place where "
+        "the manifest file lies: a packing list read with `verify -pl` lies in the flatten destination, its records describe the tree of the root",
+        2,
+    )
+    hl_cls = next((cq for cq in p.classes if cq.endswith("hashlist.MHLHashList")), None)
+    if hl_cls is None:
+        raise AnalysisError("class MHLHashList not found")
+    n13 = 0
+    from .common import unshipped_modules as _unshipped, reach_from as _reach_from
+
+    # the model classes, and whatever `verify` (the command that can be handed a packing list) reaches; `info` only ever loads manifests from <root>/ascmhl
+    reach13 = set(_reach_from(p, [need(commands(p), "verify").qual]))
+
+    for fq, fn_ in sorted(p.funcs.items()):
+        if fn_.module.name in _unshipped(p) or not (fn_.module.name.endswith(("hashlist", "history")) or fq in reach13):
+            continue
+        for c, tg in p.calls[fq]:
+            if "ext:os.path.join" not in tg or len(c.args) < 2:
+                continue
+            if not any(isinstance(a, ast.Attribute) and a.attr in ("path", "previous_path") for a in c.args[1:]):
+                continue
+            owner_ok = False
+            for a in c.args[1:]:
+                if isinstance(a, ast.Attribute) and a.attr in ("path", "previous_path"):
+                    t_ = p.etype(a.value, fn_)
+                    owner_ok = owner_ok or (t_ is not None and t_[0] == "C" and t_[1].endswith("MHLMediaHash")) or (t_ is None and "media_hash" in norm(a.value))
+            if not owner_ok:
+                continue
+            n13 += 1
+            r13.instance(fn_, c, norm(c)[:80])
+            bad13 = []
+            stack13 = [(o, fn_, 0) for o in pr.origins(c.args[0], fn_)]
+            while stack13:
+                o, where, depth = stack13.pop()
+                for s_ in subterms(o):
+                    if s_[0] == "call" and s_[1].endswith("MHLHashList.get_root_path"):
+                        bad13.append("MHLHashList.get_root_path()")
+                    if s_[0] == "attr" and s_[2] == "file_path" and len(s_) > 3 and str(s_[3]).endswith("MHLHashList"):
+                        bad13.append("the manifest's own file_path")
+                    if s_[0] == "param" and depth < 2 and s_[1] in p.funcs:
+                        callee = p.funcs[s_[1]]
+                        for caller, call in callers_of(p, s_[1]):
+                            try:
+                                bound = p.bind_args(callee, call)
+                            except Exception:
+                                bound = {}
+                            arg = bound.get(s_[2])
+                            if arg is not None:
+                                stack13 += [(o2, caller, depth + 1) for o2 in pr.origins(arg, caller)]
+            r13.check(not bad13, fn_, c, f"`{norm(c)[:70]}` joins a recorded path with {sorted(set(bad13))}: for a manifest that does not lie in <root>/ascmhl (a packing list written by flatten) every recorded file is looked for below the wrong folder and reported missing", construct=f"{fn_.name}: recorded path joined with the manifest's location")
+    if n13 < 2:
+        raise AnalysisError("fewer than 2 places where a recorded path is made absolute (anchor vanished)")
+
     from .common import include_rules
 
     include_rules(report, p, 'c04', ['R4.9'], 'verify and diff find a renamed file through the `original` entry recorded under its new name: the rename matching must not relabel it')
